@@ -16,7 +16,7 @@ def check(run, replay=None):
         assumptions=["merlin framing is injective in (label, message) sequences (the model's oracle input is the structured "
                      "operation list)",
                      "k256 implements a prime-order group (group_laws) and GroupEncoding::{to_bytes,from_bytes} round-trips on "
-                     "every point incl. the identity (dec_enc33)",
+                     "every point incl. the identity = 33 zero bytes (premise enc33_roundtrip; the model's g_dec is the real decode_point)",
                      "the hash-to-curve retry loop terminates (model fuel 64; longest chain observed is reported as "
                      "max_retry_chain)",
                      "'other key differs' and session binding are proved as 'equal => explicit oracle coincidence' "
